@@ -176,6 +176,9 @@ def cmd_run(a):
                 if time.time() > a.deadline:
                     status = "deadline"
                     break
+                if a.stop_file and os.path.exists(a.stop_file):
+                    status = "stopped"
+                    break
                 sub = subseed(a.seed, a.prop, w)
                 rng = random.Random(sub)
                 case = prop.gen(rng, a.tier)
@@ -361,6 +364,7 @@ def main(argv=None):
     r.add_argument("--worlds", type=int, required=True)
     r.add_argument("--deadline", type=float, default=1e18)
     r.add_argument("--out", required=True)
+    r.add_argument("--stop-file", default=None)
     p = sub.add_parser("replay")
     p.add_argument("--file", required=True)
     p.add_argument("--out", required=True)
